@@ -7,7 +7,7 @@ TRUSTED_BASE = [
     "Rust harness /verif/harness (drives the real code, dumps its state), python orchestrator ./check",
     "HashMap/DashMap as finite maps, VecDeque as a list, monotone Instant, fastrand as an arbitrary choice < len",
     "source translators checklib/static_scopes.py (lock / RefCell nesting -> Generated/*.lean, C16s / C17s) and checklib/static_sites.py (lock-site inventory): lexical scanners, trusted",
-    "source translator checklib/rust2lean.py (pure helper code of memory_estimator.rs, utils.rs, cache_entry.rs, stats.rs, eviction_policy.rs and the victim scans + insert / is_already_key_inserted / handle_entry_limit_eviction of async_global_cache.rs -> Generated/Pure*.lean, theorems T01..T21): a parser + emitter for the Rust subset these files use, trusted; the meaning of the library calls (usize subtraction, VecDeque / HashMap / iterator methods, atomics, f64 as an abstract structure) is the hand-written Cachelito/RustLite.lean, trusted; Rust's trait resolution (which MemoryEstimator impl a shape uses) is transcribed in Cachelito/Source/Mem.lean",
+    "source translator checklib/rust2lean.py (pure helper code of memory_estimator.rs, utils.rs, cache_entry.rs, stats.rs, eviction_policy.rs and the victim scans + insert / is_already_key_inserted / handle_entry_limit_eviction of async_global_cache.rs -> Generated/Pure*.lean, theorems T01..T22): a parser + emitter for the Rust subset these files use, trusted; the meaning of the library calls (usize subtraction, VecDeque / HashMap / iterator methods, atomics, f64 as an abstract structure) is the hand-written Cachelito/RustLite.lean, trusted; Rust's trait resolution (which MemoryEstimator impl a shape uses) is transcribed in Cachelito/Source/Mem.lean",
 ]
 
 HOOK_COMMITS = [
@@ -275,7 +275,7 @@ PROPS = {
         "design_ref": "DESIGN.md §7 C18", "assumptions": ["DashMap operations are linearizable"],
     },
     "C15": {
-        "lean_modules": ["Cachelito.Props.C15", "Cachelito.Props.C15b", "Cachelito.Props.C15c", "Cachelito.Props.C15r", "Cachelito.Props.T04", "Cachelito.Props.T09", "Cachelito.Props.T10"],
+        "lean_modules": ["Cachelito.Props.C15", "Cachelito.Props.C15b", "Cachelito.Props.C15c", "Cachelito.Props.C15r", "Cachelito.Props.T04", "Cachelito.Props.T09", "Cachelito.Props.T10", "Cachelito.Props.T22"],
         "streams": [core_stream(nontrivial=["hit", "expiry"]), macro_stream(nontrivial=["stats-get", "stats-reset", "hit"]),
                     sched_stream(nontrivial=["quiescent-stats-checked"], quick=(6, 8, 50)), hammer_stream(), counters_stream(), stats_stream()],
         "monitors": ["C15"],
